@@ -87,6 +87,32 @@ func hashesElem(v ssa.Value) (ssa.Value, bool) {
 	return ia.Index, true
 }
 
+// lastHistoryEntry: v is hashes[len(hashes)-1], spelled out or through an accessor that returns just that (Hash()).
+func lastHistoryEntry(v ssa.Value) bool {
+	if ix, ok := hashesElem(v); ok {
+		k, ok := lenMinus(ix)
+		return ok && k == 1
+	}
+	call, ok := stripConv(v).(*ssa.Call)
+	if !ok {
+		return false
+	}
+	h := call.Call.StaticCallee()
+	if h == nil || !isOwn(h) || h.Blocks == nil || relPkg(fnPkgPath(h)) != "board" || len(h.Params) != 1 {
+		return false
+	}
+	as := resultAssignments(h, 0)
+	if len(as) != 1 || h.Signature.Results().Len() != 1 {
+		return false
+	}
+	ix, ok := hashesElem(as[0].Val)
+	if !ok {
+		return false
+	}
+	k, ok := lenMinus(ix)
+	return ok && k == 1
+}
+
 func c10R1R2(c *Ctx, p *Prog) {
 	const r1, r2 = "C10.R1", "C10.R2"
 	fn := p.Func("board.(*Board).Threefold")
@@ -104,11 +130,10 @@ func c10R1R2(c *Ctx, p *Prog) {
 		}
 		for _, pr := range [][2]ssa.Value{{bo.X, bo.Y}, {bo.Y, bo.X}} {
 			i1, ok1 := hashesElem(pr[0])
-			i2, ok2 := hashesElem(pr[1])
-			if !ok1 || !ok2 {
+			if !ok1 {
 				continue
 			}
-			if k, ok := lenMinus(i2); ok && k == 1 {
+			if lastHistoryEntry(pr[1]) {
 				if ph, ok := stripConv(i1).(*ssa.Phi); ok {
 					cmp, ixPhi = bo, ph
 				}
